@@ -21,21 +21,21 @@ import (
 )
 
 type Options struct {
-	Solver       string // cvc5 | z3 | z3-new
-	TimeoutMs    int
-	Workers      int
-	MaxPaths     int
-	MaxSteps     int64 // instruction budget per path (unwinding guard)
-	Bounds       map[string]int
-	Verbose      bool
-	StopAtFirst  bool // stop exploring after the first violation candidate
-	MaxViol      int  // keep at most this many violation candidates
-	SolverLogDir string
+	Solver            string // cvc5 | z3 | z3-new
+	TimeoutMs         int
+	Workers           int
+	MaxPaths          int
+	MaxSteps          int64 // instruction budget per path (unwinding guard)
+	Bounds            map[string]int
+	Verbose           bool
+	StopAtFirst       bool // stop exploring after the first violation candidate
+	MaxViol           int  // keep at most this many violation candidates
+	SolverLogDir      string
 	Fallback          string // second solver asked when the first says unknown
 	FallbackTimeoutMs int
-	Seed         int
-	SampleModels int // keep models of this many violation-free paths (translator validation)
-	MapOrder     int // >0: iteration order of maps with at most this many entries is symbolic
+	Seed              int
+	SampleModels      int // keep models of this many violation-free paths (translator validation)
+	MapOrder          int // >0: iteration order of maps with at most this many entries is symbolic
 }
 
 func (o *Options) bound(name string, def int) int {
@@ -92,20 +92,20 @@ type PathModel struct {
 }
 
 type Explorer struct {
-	prog    *Program
-	opts    Options
-	entry   *ssa.Function
-	mu      sync.Mutex
-	cond    *sync.Cond
-	front   [][]int
-	active  int
-	started int
-	res     *Result
-	stop    bool
-	t0      time.Time
+	prog     *Program
+	opts     Options
+	entry    *ssa.Function
+	mu       sync.Mutex
+	cond     *sync.Cond
+	front    [][]int
+	active   int
+	started  int
+	res      *Result
+	stop     bool
+	t0       time.Time
 	perClass map[string]int
-	abort   bool // set by the watchdog: running paths end at their next instruction
-	rng     uint64
+	abort    bool // set by the watchdog: running paths end at their next instruction
+	rng      uint64
 }
 
 type undoRec struct {
@@ -115,25 +115,25 @@ type undoRec struct {
 }
 
 type Path struct {
-	ex        *Explorer
-	solver    *Solver
-	script    []int
-	pos       int
-	decisions []int
-	pc        []*Term
-	sorts     map[string]Sort
-	varOrder  []string
-	nameCount map[string]int
-	undo      []undoRec
-	steps     int64
-	events    []Event
-	reached   map[string]bool
-	asserts   int
-	forks     int
-	lz        *lazyState
-	memo      map[string]value // per-path memo tables for stubs
+	ex         *Explorer
+	solver     *Solver
+	script     []int
+	pos        int
+	decisions  []int
+	pc         []*Term
+	sorts      map[string]Sort
+	varOrder   []string
+	nameCount  map[string]int
+	undo       []undoRec
+	steps      int64
+	events     []Event
+	reached    map[string]bool
+	asserts    int
+	forks      int
+	lz         *lazyState
+	memo       map[string]value    // per-path memo tables for stubs
 	extraModel map[string]ModelVal // nondeterministic choices that are not solver variables
-	funcs     map[string]bool
+	funcs      map[string]bool
 }
 
 // control-flow panics
@@ -204,6 +204,10 @@ func (p *Path) fork(alts []*Term) int {
 		return live
 	}
 	p.forks++
+	if p.ex != nil && p.ex.abort {
+		// the solver answers "unknown" from now on: no decision can be taken
+		panic(engineError{"aborted by the time/memory watchdog"})
+	}
 	if p.pos < len(p.script) {
 		c := p.script[p.pos]
 		p.pos++
@@ -404,14 +408,15 @@ func (p *Path) Assert(c *Term, msg string) {
 // ---------------------------------------------------------------------------
 
 type Program struct {
-	Prog     *ssa.Program
-	Pkgs     map[string]*ssa.Package // by import path
-	initPkgs []*ssa.Package          // packages whose init is run concretely, in dependency order
-	Sizes    types.Sizes
+	Prog        *ssa.Program
+	Pkgs        map[string]*ssa.Package // by import path
+	initPkgs    []*ssa.Package          // packages whose init is run concretely, in dependency order
+	Sizes       types.Sizes
 	initAllowed map[*ssa.Package]bool
-	Stubs    map[string]*ssa.Function // environment function name -> harness model
-	Lazy     *LazySpec
-	byName   map[string]*ssa.Function
+	stubsPkg    map[string]map[string]*ssa.Function
+	Stubs       map[string]*ssa.Function // environment function name -> harness model
+	Lazy        *LazySpec
+	byName      map[string]*ssa.Function
 }
 
 func (pr *Program) FindFunc(pkgPath, name string) *ssa.Function {
@@ -572,7 +577,7 @@ func (ex *Explorer) worker(id int) {
 				in.symbolicMapOrder = true
 				in.mapOrderBound = ex.opts.MapOrder
 			}
-			if err := in.runInits(); err != nil {
+			if err := in.runInits(ex.entry); err != nil {
 				ex.mu.Lock()
 				ex.res.Inconclusive = append(ex.res.Inconclusive, "init failed: "+err.Error())
 				ex.stop = true
@@ -705,4 +710,33 @@ func firstLine(s string) string {
 // by ssa.Function.String) by calls to the harness-level model fn.
 func (pr *Program) BindStub(env, pkg string, fn *ssa.Function) {
 	pr.Stubs[env] = fn
+	if pr.stubsPkg == nil {
+		pr.stubsPkg = map[string]map[string]*ssa.Function{}
+	}
+	if pr.stubsPkg[env] == nil {
+		pr.stubsPkg[env] = map[string]*ssa.Function{}
+	}
+	pr.stubsPkg[env][pkg] = fn
+}
+
+// stubFor returns the model bound to env, preferring the one that lives in
+// the package of the harness being explored (twin packages carry the same models).
+func (pr *Program) stubFor(env string, entry *ssa.Function) *ssa.Function {
+	st := pr.Stubs[env]
+	if st == nil {
+		return nil
+	}
+	if entry != nil && entry.Pkg != nil {
+		if f := pr.stubsPkg[env][entry.Pkg.Pkg.Path()]; f != nil {
+			return f
+		}
+	}
+	return st
+}
+
+func (p *Path) entryFn() *ssa.Function {
+	if p == nil || p.ex == nil {
+		return nil
+	}
+	return p.ex.entry
 }
